@@ -166,6 +166,7 @@ def crash_task(task, wdir, res):
             res.nontrivial((task["tmpl"], task["point"]))
             res.add_set("points_fired", task["point"])
         res.count("applied_events", len(pl.applied)); res.count("open_events", len(pl.open))
+        sig_base["unindexed_dir_at_crash"] = pl.unindexed_dir_at_crash
         witness["died_at_op"] = pl.died_at
         witness["applied"] = sorted(pl.applied); witness["open"] = sorted(pl.open)
         node = lt.start()
@@ -188,7 +189,9 @@ def run(run):
     reps = 1 if quick else 12
     dry = []
     for t in tmpls:
-        for r in range(reps):
+        # the templates in which the unchanged tree loses nothing get more histories: they carry the detection power
+        n_t = reps * (3 if t in ("auto", "auto_crash_auto") else 1)
+        for r in range(n_t):
             dry.append({"name": f"dry-{t}-{r}", "tmpl": t, "seed": run.rng("h", t, r).getrandbits(40), "buffered": False})
     if not quick:
         for t in tmpls:
